@@ -15,6 +15,7 @@ Only clauses of the statement raise VIOLATION; a mismatch with the reference mac
 import copy
 import math
 import random
+import traceback
 import warnings
 from fractions import Fraction as F
 from math import gcd
@@ -57,6 +58,15 @@ BREPS = ["belief", "dict", "dict_zeros", "list"]
 
 def tol(x):
     return TOL * max(1.0, abs(float(x)))
+
+
+def err_of(e):
+    """(exception name, message, innermost msdm function on the stack) - the call site named in the signature."""
+    where = None
+    for fr in traceback.extract_tb(e.__traceback__):
+        if "/msdm/" in fr.filename:
+            where = fr.name
+    return (type(e).__name__, str(e)[:200], where)
 
 
 def lcm(a, b):
@@ -492,7 +502,7 @@ class Real:
                               value_convergence_epsilon=float(eps), horizon=(None if H < 0 else H))
                 rec.update(self.project_pbvi(r, bb, eps, H))
             except Exception as e:                           # noqa: BLE001
-                rec["error"] = (type(e).__name__, str(e)[:200])
+                rec["error"] = err_of(e)
             rec["job"] = self.add_job(job["bs"], eps, H)
             self.s1.append(rec)
 
@@ -534,7 +544,7 @@ class Real:
                                                    value_convergence_epsilon=float(eps), horizon=(None if H < 0 else H))
                 res = self.call("PointBasedValueIteration.plan_on", planner.plan_on, self.p)
             except Exception as e:                           # noqa: BLE001
-                rec["error"] = (type(e).__name__, str(e)[:200])
+                rec["error"] = err_of(e)
                 self.s2.append(rec)
                 continue
             rec["n_alpha"] = len(res.alpha_vectors)
@@ -634,7 +644,7 @@ class Real:
                 o["dist"] = [float(d.prob(a)) for a in self.al]
                 o["supp"] = [1 if any(a == x for x in d.support) else 0 for a in self.al]
             except Exception as e:                           # noqa: BLE001
-                o["error"] = (type(e).__name__, str(e)[:200])
+                o["error"] = err_of(e)
             obs.append(o)
         rec["obs"] = obs
 
@@ -649,7 +659,7 @@ class Real:
                 res = self.call("QMDP.plan_on", planner.plan_on, self.p)
             self.observe_policy(rec, res.policy, "qmdp")
         except Exception as e:                               # noqa: BLE001
-            rec["error"] = (type(e).__name__, str(e)[:200])
+            rec["error"] = err_of(e)
         self.qmdp = rec
 
     # ------------------------------------------------------------------ greedy records for TLC
@@ -741,11 +751,11 @@ class Judge:
     # ------------------------------------------------------------------ crashes
     def crash(self, rec):
         """An exception on an in-scope POMDP / configuration: no value is given at all."""
-        name, msg = rec["error"]
+        name, msg, where = rec["error"]
         eps, H = rec.get("eps"), rec.get("H")
-        site = "point_based_value_iteration" if rec["kind"] in ("s1", "s2") else rec["site"]
+        site = where or rec["site"]
         shape = None
-        if rec["kind"] in ("s1", "s2"):
+        if rec["kind"] in ("s1", "s2") and where == "point_based_value_iteration":
             h = H if H >= 0 else py_auto_h(self.mp, eps)[0]
             if name == "ZeroDivisionError" and H < 0 and h == -1:
                 shape = "constant-reward-automatic-horizon"
@@ -778,12 +788,15 @@ class Judge:
         got = rec["alpha"]
         same = jr["k"] in (rec.get("k"), rec.get("k_alt")) and len(exp) == len(got) and all(
             abs(got[p][s] - float(exp[p][s])) <= tol(exp[p][s]) for p in range(len(exp)) for s in range(len(exp[p])))
+        if same and jr["phase"] in ("stopped", "horizon") and [a + 1 for a in rec.get("acts", [])] != list(jr["acts"]):
+            same = False        # the action attached to each alpha vector (alpha_actions) differs
         if same:
             self.ctx.count("runs_explained_by_the_backup_machine")
         else:
             self.ctx.drift("Backup", {"case": self.idx, "site": rec["site"], "expected_k": jr["k"], "real_k": rec.get("k"),
                                       "phase": jr["phase"], "expected_alpha": [[str(x) for x in r] for r in exp][:3],
-                                      "real_alpha": got[:3]})
+                                      "real_alpha": got[:3], "expected_actions": list(jr.get("acts", [])),
+                                      "real_actions": [a + 1 for a in rec.get("acts", [])]})
         return same
 
     def judge_s1(self, rec):
@@ -1088,7 +1101,7 @@ def judge_cases(ctx, cases, *, tamper=None, mutate_records=None, mutate_batch=No
 
 def run(ctx):
     rng = random.Random(ctx.seed * 104729 + 8)
-    n = 150 if ctx.tier == "quick" else 900
+    n = 220 if ctx.tier == "quick" else 2400
     ctx.rule = ("random discounted tabular POMDPs (2-4 states incl. 0-2 absorbing ones with or without ghost dynamics, 1-3 actions, "
                 "1-3 observations; observation kernels random / identity / action-permuted identity / single / uninformative; "
                 "rewards mixed / non-negative / non-positive / constant; discount 1/2, 3/4, 1/4, 9/10) x evaluation beliefs "
@@ -1107,7 +1120,7 @@ def run(ctx):
         "float results are compared with exact rationals at 1e-9 relative",
     ]
     cases = make_cases(rng, n, ctx.tier)
-    chunk = 150 if ctx.tier == "quick" else 150
+    chunk = 220 if ctx.tier == "quick" else 200
     for k0 in range(0, len(cases), chunk):
         judge_cases(ctx, cases[k0:k0 + chunk], ties=("both" if k0 == 0 else "first"))
 
